@@ -231,6 +231,140 @@ func scripted() map[string]input {
 			out[name[7:]+"_whole_immutable_underimm"] = input{Mech: "immutable", UnderImm: true, Ops: append(append([]memsim.Op{}, s.build...), s.attack...)}
 		}
 	}
+	for name, in := range raceScenarios() {
+		out[name] = in
+	}
+	for name, in := range sessionScenarios() {
+		out[name] = in
+	}
+	return out
+}
+
+// ---- the registry under the Immutable wrapper is somebody else's as well ----
+
+// callsBefore runs the input with its rivals and returns how many calls had reached the registry
+// behind the wrapper when operation i of the history began.
+func callsBefore(in input, i int) int {
+	under, mech, sp := build(in)
+	exU := memsim.NewExec(under, true)
+	exM := memsim.NewExec(mech, true)
+	for _, o := range in.Setup {
+		exU.Run(o)
+	}
+	for _, o := range in.Ops[:i] {
+		exM.Run(o)
+	}
+	return sp.count
+}
+
+// raceScenarios: Immutable's tagged push is resolve, push, resolve on the registry behind it.  A
+// rival's push of the same tag lands after the first, the second or the third of these calls (or
+// after the single call of a later read); the rival pushes other content or the same; the content
+// the wrapper's user pushes is new, stored untagged, or what an observed tag already points at;
+// the registry underneath runs with or without immutable tags.  Whatever the outcome for the
+// contested tag, nothing may be deleted and every other tag must stay what it was seen to be.
+func raceScenarios() map[string]input {
+	out := map[string]input{}
+	ours := imageBytes(config, nil, layer1)
+	theirs := imageBytes(config, nil, layer2)
+	base := []memsim.Op{pushBlob("r1", layer1), pushBlob("r1", layer2), pushBlob("r1", config)}
+	n := 0
+	for _, underImm := range []bool{false, true} {
+		for pos := 0; pos < 4; pos++ {
+			for _, same := range []bool{false, true} {
+				for held := 0; held < 3; held++ { // our content: new / stored untagged / tagged and observed
+					wrap := wrapKinds[1+n%3]
+					n++
+					in := input{Mech: "immutable", Wrap: wrap, UnderImm: underImm}
+					in.Setup = append([]memsim.Op{}, base...)
+					switch held {
+					case 1:
+						in.Setup = append(in.Setup, pushMan("r1", "", ours, mtImage))
+					case 2:
+						in.Setup = append(in.Setup, pushMan("r1", "v1", ours, mtImage))
+					}
+					in.Ops = []memsim.Op{resTag("r1", "v1"), getTag("r1", "v1"),
+						pushMan("r1", "latest", ours, mtImage),
+						resTag("r1", "latest"), getTag("r1", "latest"), resTag("r1", "v1"), getTag("r1", "v1"), getMan("r1", ours), getMan("r1", theirs),
+						pushMan("r1", "latest", ours, mtImage), pushMan("r1", "latest", theirs, mtImage), pushMan("r1", "v1", ours, mtImage),
+						delMan("r1", ours), delMan("r1", theirs), delTag("r1", "latest"), getTag("r1", "v1")}
+					rc := theirs
+					if same {
+						rc = ours
+					}
+					in.Rivals = []rival{{After: callsBefore(in, 2) + pos, Op: pushMan("r1", "latest", rc, mtImage)}}
+					out[fmt.Sprintf("race_%s_%v_pos%d_same%v_held%d", wrap, underImm, pos, same, held)] = in
+				}
+			}
+		}
+	}
+	return out
+}
+
+// ---- an upload session used again after its commit ----
+
+// sessionScenarios: a layer (or the config) of a tagged image was stored by a chunked upload.
+// After the commit the writer is cancelled or closed (the documented deferred clean-up), the
+// session is opened again by its id at some offset, and written to.  Whatever the registry makes
+// of those calls, the tagged image's blob must stay what it is.  In immutable-tags mode the
+// upload, the commit and the tagging are part of the setup (the snapshot before sees the blob
+// from the tag); through the Immutable wrapper the whole history goes through the wrapper.
+func sessionScenarios() map[string]input {
+	out := map[string]input{}
+	blob := []byte("layer-stored-by-a-chunked-upload-0123456789")
+	evil := []byte("EVIL-EVIL-EVIL-EVIL-EVIL-EVIL-EVIL-EVIL-EVIL-EVIL-EVIL-EVIL")
+	n := 0
+	for _, asConfig := range []bool{false, true} {
+		img := imageBytes(config, nil, blob)
+		other := pushBlob("r1", config)
+		if asConfig {
+			img = imageBytes(blob, nil, layer1)
+			other = pushBlob("r1", layer1)
+		}
+		for _, after := range []string{"WCancel", "WClose", "", "both"} {
+			for _, off := range []int64{0, -1, int64(len(blob))} {
+				for _, wlen := range []int{5, len(blob), len(evil)} {
+					upload := []memsim.Op{{Kind: "PushBlobChunked", Repo: "r1"}, {Kind: "WWrite", W: 0, Content: blob},
+						{Kind: "WCommit", W: 0, Digest: memsim.Sha(blob)}}
+					var cleanup []memsim.Op
+					switch after {
+					case "WCancel", "WClose":
+						cleanup = []memsim.Op{{Kind: after, W: 0}}
+					case "both":
+						cleanup = []memsim.Op{{Kind: "WCancel", W: 0}, {Kind: "WClose", W: 0}}
+					}
+					tagIt := []memsim.Op{other, pushMan("r1", "v1", img, mtImage), getTag("r1", "v1")}
+					// ocimem hands out the session's own writer on resume: the executor knows it as writer 0 again
+					reuse := []memsim.Op{{Kind: "PushBlobChunkedResume", Repo: "r1", ID: "#0", Off: off},
+						{Kind: "WWrite", W: 0, Content: evil[:wlen]}, getBlob("r1", blob),
+						{Kind: "WCommit", W: 0, Digest: memsim.Sha(evil[:wlen])}, getBlob("r1", blob), getTag("r1", "v1"),
+						{Kind: "ResolveBlob", Repo: "r1", Digest: memsim.Sha(blob)}, delBlob("r1", blob)}
+					cat := func(parts ...[]memsim.Op) []memsim.Op {
+						var all []memsim.Op
+						for _, p := range parts {
+							all = append(all, p...)
+						}
+						return all
+					}
+					name := fmt.Sprintf("session_cfg%v_%s_off%d_w%d", asConfig, after, off, wlen)
+					// the clean-up before or after the tagging, in the setup or in the history
+					switch n % 3 {
+					case 0:
+						out[name+"_immtags"] = input{Mech: "immtags", Setup: cat(upload, tagIt), Ops: cat(cleanup, reuse)}
+					case 1:
+						out[name+"_immtags"] = input{Mech: "immtags", Setup: cat(upload, cleanup, tagIt), Ops: reuse}
+					default:
+						out[name+"_immtags"] = input{Mech: "immtags", Setup: upload, Ops: cat(tagIt, cleanup, reuse)}
+					}
+					if n%2 == 0 {
+						out[name+"_immutable"] = input{Mech: "immutable", Wrap: wrapKinds[n%4], UnderImm: n%3 == 0,
+							Ops: cat(upload, cleanup, tagIt, reuse)}
+					}
+					n++
+				}
+			}
+		}
+	}
 	return out
 }
 
@@ -356,13 +490,15 @@ func randomInput(rnd *rand.Rand, i int) input {
 	}
 	g := memsim.NewGen(rnd, i%7 == 6)
 	t := &tracker{g: g, r: rnd, mans: map[string][]manRec{}}
-	under, mech := build(in)
+	under, mech, sp := build(in)
 	exU := memsim.NewExec(under, true)
 	exM := exU
 	if in.Mech != "immtags" {
 		exM = memsim.NewExec(mech, true)
 		g.NoUploads = true // setup of a wrapper case: writer numbering starts with the wrapper's history
 	}
+	// half of the Immutable histories over a forwarding value: the registry has a second client
+	rivalry := in.Mech == "immutable" && sp != nil && rnd.Intn(2) == 0
 	ns := 4 + rnd.Intn(18)
 	if in.Mech == "immutable" && rnd.Intn(3) == 0 {
 		ns = 0 // the whole history through the wrapper
@@ -377,11 +513,108 @@ func randomInput(rnd *rand.Rand, i int) input {
 	no := 5 + rnd.Intn(26)
 	for j := 0; j < no; j++ {
 		o := t.next(45)
+		nf := 0
+		if rivalry {
+			nf = len(sp.fired)
+			for _, rv := range t.rivalsFor(o, sp.count, j) {
+				in.Rivals = append(in.Rivals, rv)
+				sp.rivals[rv.After] = append(sp.rivals[rv.After], rv.Op)
+			}
+		}
 		r := exM.Run(o)
 		t.update(o, r, exM)
+		if rivalry {
+			for _, f := range sp.fired[nf:] {
+				t.update(f.Op, f.Res, sp.exR)
+			}
+		}
 		in.Ops = append(in.Ops, o)
 	}
+	// a rival scheduled after a call that never came does nothing: drop it
+	var kept []rival
+	for _, rv := range in.Rivals {
+		if sp != nil && rv.After < sp.count {
+			kept = append(kept, rv)
+		}
+	}
+	in.Rivals = kept
 	return in
+}
+
+// variant: the same manifest with one more annotation (it names the same blobs, so the registry
+// accepts it whenever it accepts the original); nil when the content is no JSON object
+func variant(content []byte, note string) []byte {
+	var m map[string]any
+	if json.Unmarshal(content, &m) != nil || m == nil {
+		return nil
+	}
+	ann, _ := m["annotations"].(map[string]any)
+	if ann == nil {
+		ann = map[string]any{}
+	}
+	ann["org.example.rival"] = note
+	m["annotations"] = ann
+	b, err := json.Marshal(m)
+	if err != nil {
+		return nil
+	}
+	return b
+}
+
+// rivalsFor: what the second client does while operation o (the j-th of the history, beginning
+// when base calls have reached the registry) is under way.  Mostly aimed at a tagged push: after
+// the wrapper's first resolve, after its push, after its second resolve.
+func (t *tracker) rivalsFor(o memsim.Op, base, j int) []rival {
+	note := fmt.Sprintf("rival-%d", j)
+	if o.Kind == "PushManifest" && o.Tag != "" && t.r.Intn(4) != 0 {
+		at := base + []int{1, 1, 1, 0, 2}[t.r.Intn(5)]
+		var ro memsim.Op
+		switch k := t.r.Intn(10); {
+		case k < 5: // the same tag, other content
+			c := variant(o.Content, note)
+			if ms := t.mans[o.Repo]; c == nil || (len(ms) > 0 && t.r.Intn(3) == 0) {
+				if len(ms) == 0 {
+					return nil
+				}
+				m := ms[t.r.Intn(len(ms))]
+				ro = pushMan(o.Repo, o.Tag, m.content, m.media)
+			} else {
+				ro = pushMan(o.Repo, o.Tag, c, o.Media)
+			}
+		case k < 7: // the same tag, the same content
+			ro = pushMan(o.Repo, o.Tag, o.Content, o.Media)
+		case k < 8: // a tag of the rival's own
+			c := variant(o.Content, note)
+			if c == nil {
+				return nil
+			}
+			ro = pushMan(o.Repo, "rv-"+note, c, o.Media)
+		case k < 9: // untagged
+			c := variant(o.Content, note)
+			if c == nil {
+				return nil
+			}
+			ro = pushMan(o.Repo, "", c, o.Media)
+		default:
+			ro = pushBlob(o.Repo, []byte(note))
+		}
+		return []rival{{After: at, Op: ro}}
+	}
+	if t.r.Intn(10) == 0 { // any other moment
+		repo := t.liveRepo()
+		switch ms := t.mans[repo]; {
+		case len(ms) > 0 && t.r.Intn(2) == 0:
+			m := ms[t.r.Intn(len(ms))]
+			tag := "rv-" + note
+			if tags := t.g.TagsSet[repo]; len(tags) > 0 && t.r.Intn(3) == 0 {
+				tag = tags[t.r.Intn(len(tags))] // re-tagging under the wrapper's feet: that tag is the rival's from now on
+			}
+			return []rival{{After: base, Op: pushMan(repo, tag, m.content, m.media)}}
+		default:
+			return []rival{{After: base, Op: pushBlob(repo, []byte(note))}}
+		}
+	}
+	return nil
 }
 
 // concInput: a sequential build, then goroutines racing on the same few tags and digests
